@@ -999,15 +999,25 @@ impl OutstationSession {
         match guard.get() {
             Some(TransportRequest::Request(info, request)) => {
                 self.on_link_activity();
+                let is_repeat = matches!(
+                    self.classify(info, request),
+                    FragmentType::RepeatNonRead(_, _)
+                );
                 if let Some(mut result) = self
                     .process_request_from_idle(info, request, database)
                     .await
                 {
                     // optional response
                     if let Some(response) = &mut result.response {
-                        *response = self
-                            .write_solicited(io, writer, info.addr, *response, database)
-                            .await?;
+                        if is_repeat {
+                            // a retransmitted request is answered with exactly the response sent before
+                            self.repeat_solicited(io, info.addr, writer, *response)
+                                .await?;
+                        } else {
+                            *response = self
+                                .write_solicited(io, writer, info.addr, *response, database)
+                                .await?;
+                        }
 
                         // check if an extra confirmation was added due to broadcast
                         if response.header.control.con && result.series.is_none() {
